@@ -307,6 +307,12 @@ package aggregate
 //@   at labels.(*Builder).Del #1 assert[C04] grouping-labels-deleted: sameslice($ns, grouping)
 //@   at labels.(*Builder).Del #2 assert[C04,C19] metric-name-deleted: len($ns) == 1 && $ns[0] == "__name__"
 //@   at labels.(*Builder).Keep assert[C04] grouping-labels-kept: sameslice($ns, grouping)
+// The group key: without(L) hashes every label but L, by(L) hashes exactly L, by() puts every series into one group.
+//@   at labels.(Labels).HashWithoutLabels assert[C04] without-key-covers-everything-but-the-grouping: sameslice($ls, metric) && sameslice($names, grouping)
+//@   at labels.(Labels).HashForLabels assert[C04] by-key-covers-exactly-the-grouping: sameslice($ls, metric) && sameslice($names, grouping)
+//@   ensures[C04] group-key: (without ==> ncalls("labels.(Labels).HashWithoutLabels") == 1 && result0 == callres("labels.(Labels).HashWithoutLabels", 1, 0)) &&
+//@       (!without && len(grouping) > 0 ==> ncalls("labels.(Labels).HashForLabels") == 1 && result0 == callres("labels.(Labels).HashForLabels", 1, 0)) &&
+//@       (!without && len(grouping) == 0 ==> result0 == 0)
 
 // ---- scalar_table.go: the grouped table of one step (C04, C07, C13, C18) --------------------------
 // Table invariant: one accumulator per output series, output ids dense, every input series mapped to
